@@ -116,3 +116,51 @@ theorem rewardTuples_mem (rp : RewardPeriod) (td : Dec) (bd : Nat) :
         · exact Or.inr ⟨e, List.mem_cons_of_mem _ he, hr⟩
 
 end Sif.Clp
+
+namespace Sif.Clp
+open Sif Sif.Dec
+
+/-- exact total weight of a pool list, in raw 10⁻¹⁸ units: Σ nBal·multiplier -/
+def weightSum (rp : RewardPeriod) : List (String × Pool) → ℚ
+  | [] => 0
+  | (_, p) :: rest => (p.nBal : ℚ) * (multiplier rp p.sym).i + weightSum rp rest
+
+theorem add_ok {a b c : Dec} (h : a.add b = .ok c) : c.i = a.i + b.i := by
+  unfold Dec.add at h; exact chk_ok h
+
+/-- `calcTotalDepth`: the total the hook computes is the exact weight sum up to half a unit of 10⁻¹⁸ per pool -/
+theorem totalDepth_err (rp : RewardPeriod) :
+    ∀ (pools : List (String × Pool)) (acc td : Dec),
+      (∀ e ∈ pools, 0 ≤ (multiplier rp e.2.sym).i) → 0 ≤ acc.i →
+      totalDepth rp pools acc = .ok td →
+      0 ≤ td.i ∧ (td.i : ℚ) ≤ acc.i + weightSum rp pools + (pools.length : ℚ) / 2 ∧
+      (acc.i : ℚ) + weightSum rp pools - (pools.length : ℚ) / 2 ≤ (td.i : ℚ) := by
+  intro pools
+  induction pools with
+  | nil =>
+    intro acc td _ hacc h
+    unfold totalDepth at h
+    cases h
+    simp [weightSum, hacc]
+  | cons hd rest ih =>
+    intro acc td hm hacc h
+    obtain ⟨k, p⟩ := hd
+    unfold totalDepth at h
+    obtain ⟨w, hw, h⟩ := bind_ok h
+    obtain ⟨acc', ha, h⟩ := bind_ok h
+    have hn0 : 0 ≤ (Dec.ofNat p.nBal).i := by rw [ofNat_i]; exact Int.natCast_nonneg _
+    have hmp : 0 ≤ (multiplier rp p.sym).i := hm (k, p) List.mem_cons_self
+    obtain ⟨w0, w1, w2⟩ := mul_err hn0 hmp hw
+    have hp : (0 : ℚ) < (P : ℚ) := by exact_mod_cast P_pos
+    have e0 : ((Dec.ofNat p.nBal).i : ℚ) * (multiplier rp p.sym).i / P = (p.nBal : ℚ) * (multiplier rp p.sym).i := by
+      rw [ofNat_i]; push_cast; field_simp
+    rw [e0] at w1 w2
+    have hacc' := add_ok ha
+    have hacc0 : 0 ≤ acc'.i := by rw [hacc']; omega
+    obtain ⟨r0, r1, r2⟩ := ih acc' td (fun e he => hm e (List.mem_cons_of_mem _ he)) hacc0 h
+    have hq : (acc'.i : ℚ) = acc.i + w.i := by rw [hacc']; push_cast; ring
+    refine ⟨r0, ?_, ?_⟩
+    · simp only [weightSum, List.length_cons]; push_cast; rw [hq] at r1; linarith
+    · simp only [weightSum, List.length_cons]; push_cast; rw [hq] at r2; linarith
+
+end Sif.Clp
